@@ -99,7 +99,11 @@ fn field_variants() -> Vec<(&'static str, Vec<Box<dyn Fn(&mut Snap)>>)> {
         ("ais", vec![b(|s| s.ais = None), b(|s| s.ais = Some("A".into())), b(|s| s.ais = Some("ABCD1234".into())), b(|s| s.ais = Some("".into()))]),
         ("position", vec![b(|s| { s.lat = f(0.0); s.lon = f(0.0); }), b(|s| { s.lat = f(-89.99999); s.lon = f(-179.99999); }), b(|s| { s.lat = f(89.99999); s.lon = f(179.99999); }), b(|s| { s.lat = f(0.00001); s.lon = f(-0.00001); }), b(|s| { s.lat = f(52.123456789); s.lon = f(4.987654321); }),
             // values whose fifth decimal rounds up into the next whole degree, and what decoding yields on exact degrees
-            b(|s| { s.lat = f(40.99999897); s.lon = f(-0.999996); }), b(|s| { s.lat = f(-40.999999999999972); s.lon = f(9.99999999999997); }), b(|s| { s.lat = f(0.999995); s.lon = f(99.999995); }), b(|s| { s.lat = f(-9.9999951); s.lon = f(-99.9999951); })]),
+            b(|s| { s.lat = f(40.99999897); s.lon = f(-0.999996); }), b(|s| { s.lat = f(-40.999999999999972); s.lon = f(9.99999999999997); }), b(|s| { s.lat = f(0.999995); s.lon = f(99.999995); }), b(|s| { s.lat = f(-9.9999951); s.lon = f(-99.9999951); }),
+            // signed values whose whole part is zero (the sign lives in the fraction only), next to whole and half degrees
+            b(|s| { s.lat = f(-0.125); s.lon = f(78.5); }), b(|s| { s.lat = f(0.125); s.lon = f(-0.125); }), b(|s| { s.lat = f(-0.5); s.lon = f(-0.5); }), b(|s| { s.lat = f(-0.99999); s.lon = f(0.99999); }),
+            b(|s| { s.lat = f(0.99999); s.lon = f(-0.99999); }), b(|s| { s.lat = f(-0.000004); s.lon = f(-0.000004); }), b(|s| { s.lat = f(-0.000006); s.lon = f(-0.000006); }), b(|s| { s.lat = f(-1.0); s.lon = f(-1.0); }),
+            b(|s| { s.lat = f(-1.5); s.lon = f(-100.5); }), b(|s| { s.lat = f(-10.0); s.lon = f(-10.0); }), b(|s| { s.lat = f(-45.5); s.lon = f(-9.5); })]),
         ("dist", vec![b(|s| s.dist = None), b(|s| s.dist = Some(f(0.0))), b(|s| s.dist = Some(f(999.9))), b(|s| s.dist = Some(f(10.25))), b(|s| s.dist = Some(f(0.04))), b(|s| s.dist = Some(f(9.96))), b(|s| s.dist = Some(f(99.95))), b(|s| s.dist = Some(f(0.95)))]),
         ("altitude", vec![b(|s| s.altitude = None), b(|s| s.altitude = Some(0)), b(|s| s.altitude = Some(99975)), b(|s| s.altitude = Some(25))]),
         ("altitude_gnss", vec![b(|s| s.altitude_gnss = None), b(|s| s.altitude_gnss = Some(0)), b(|s| s.altitude_gnss = Some(99999))]),
